@@ -237,3 +237,26 @@ class prepare_affine_cornersafe:
                     "for a in range(3))",
         },
     }
+
+
+# modular results for callers (the loader's task construction)
+from pyvc.contract import fresh_array as _fa
+from pyvc import contract as _C2
+
+
+def _prep_result(interp, bound):
+    return (_fa("cropped_block", 3, "real", path=interp.path), _fa("affine_mtx", 2, "real", shape=(4, 4)))
+
+
+for _k in ("acryo._utils:prepare_affine", "acryo._utils:prepare_affine_cornersafe"):
+    _C2.REGISTRY[_k].result = _prep_result
+    _C2.REGISTRY[_k].call_ensures = ["block_shape"]
+
+
+def _oob_args(interp, bound):
+    from pyvc.values import fresh
+    return [slice(fresh("oob_start", "int"), fresh("oob_stop", "int")), fresh("oob_size", "int")]
+
+
+for _k in ("acryo._utils:make_slice_and_pad", "acryo._utils:prepare_affine", "acryo._utils:prepare_affine_cornersafe"):
+    _C2.REGISTRY[_k].raise_args = _oob_args
